@@ -267,9 +267,6 @@ Section Inv.
     - destruct Ha as [-> | ->]; [tauto|]. cbn. split; [intros [X|X]; [congruence|exact X]|auto].
   Qed.
 
-  Lemma keys_set NoD (t : table id) r : NoD = NoDup (tkeys t) -> NoDup (tkeys t) -> NoDup (tkeys (set_status Nat.eqb t r)).
-  Proof. intros _ H. apply (keys_set_status id Nat.eqb nat_eqb_spec). exact H. Qed.
-
   Lemma okuid_applied s td cl' i u : (next_uid c0 <= next_uid (r_cl s))%N -> Loc s td i ->
     applied (r_cl s) cl' i u -> okuid i u.
   Proof.
